@@ -12,7 +12,7 @@ IN_CONTRACT = [
     ("C11", r"range\.iter\.b6"),
     ("C02", r"table\.(set\.home0|rem\.home4|get\.home0|iter|del)\.ns5"),
     ("C03", r"tree\.(set\.q3|rem\.q5|iter\.q5|get\.q4)$"),
-    ("C04", r"array\.(push\.n2|pop\.n3|sort\.n2|getset\.n2|iter\.n3|resize\.n3|push_at\.n2\+1\.i1|pop_at\.n3\.i-1|concat\.n1\.m2|assign\.n2\+1\.m1)"),
+    ("C04", r"array\.(push\.n2|pop\.n3|sort\.n2\+1|getset\.n2|iter\.n3|resize\.n3|push_at\.n2\+1\.i1|pop_at\.n3\.i-1|concat\.n1\.m2|assign\.n2\+1\.m1)"),
     ("C16", r"string\.(concat|rem|resize|mem)\.s3a2"),
 ]
 def family(cfg, tiers, subset=None):
